@@ -4,6 +4,7 @@ import (
 	"fmt"
 	"go/ast"
 	"math/big"
+	"sort"
 	"strings"
 
 	"golang.org/x/tools/go/ssa"
@@ -62,12 +63,13 @@ func (ex *Exec) loopCutAfterPhis(st *State, fr *Frame, pc *pendingCut) bool {
 		ex.Inputs = save
 		fr.Vals[phi] = nv
 		if phi.Comment != "" {
-			fr.Names[phi.Comment] = nameRef{V: nv}
+			fr.Names[phi.Comment] = nameRef{V: nv, Typ: phi.Type()}
 		}
 	}
 	// havoc memory written in the loop body
 	li := ex.loops(fr.Fn)
 	regions, big := false, false
+	ghosts, ghostsAll := map[string]bool{}, false
 	cells := map[*Cell]bool{}
 	for _, b := range li.body[pc.hdr.Index] {
 		for _, ins := range b.Instrs {
@@ -116,6 +118,9 @@ func (ex *Exec) loopCutAfterPhis(st *State, fr *Frame, pc *pendingCut) bool {
 						continue
 					}
 				}
+				if ex.callGhostEffects(st, x.Common(), ghosts, 0) {
+					ghostsAll = true
+				}
 				regions, big = true, true
 			}
 		}
@@ -133,9 +138,95 @@ func (ex *Exec) loopCutAfterPhis(st *State, fr *Frame, pc *pendingCut) bool {
 	if big {
 		st.Big = ex.fresh("loopheap", st.Big.S)
 	}
+	// ghost state the loop body may change (through the contracts of the functions it calls)
+	var gns []string
+	for gn := range st.Ghost {
+		if ghostsAll || ghosts[gn] {
+			gns = append(gns, gn)
+		}
+	}
+	sort.Strings(gns)
+	for _, gn := range gns {
+		st.Ghost[gn] = ex.fresh("loopgh_"+gn, st.Ghost[gn].S)
+	}
 	env = ex.invEnv(st, fr)
 	for _, c := range pc.spec.Invariants {
 		st.assume(env.termBool(c.Expr))
+	}
+	return false
+}
+
+// callGhostEffects adds to set the ghost variables a call may change, following bodies that are executed inline;
+// it returns true when that cannot be told (unknown callee): then every ghost variable is havocked.
+func (ex *Exec) callGhostEffects(st *State, cc *ssa.CallCommon, set map[string]bool, depth int) (all bool) {
+	addDeclared := func(c *Contract) {
+		for gn := range st.Ghost {
+			if declaresGhost(c, gn) {
+				set[gn] = true
+			}
+		}
+	}
+	if cc.IsInvoke() {
+		c, _ := ex.ifaceContract(cc.Value.Type(), cc.Method)
+		if c == nil {
+			if wc, ok := ex.P.CS.Funcs["*."+cc.Method.Name()]; ok {
+				c = wc
+			}
+		}
+		if c == nil {
+			return true
+		}
+		addDeclared(c)
+		return false
+	}
+	if _, isB := cc.Value.(*ssa.Builtin); isB {
+		return false
+	}
+	f := cc.StaticCallee()
+	if f == nil {
+		if mc, ok := cc.Value.(*ssa.MakeClosure); ok {
+			f, _ = mc.Fn.(*ssa.Function)
+		}
+	}
+	if f == nil {
+		return true
+	}
+	key := funcKey(f)
+	c := ex.P.CS.Funcs[key]
+	if c == nil {
+		if wc, ok := ex.P.CS.Funcs["*."+f.Name()]; ok && f.Parent() == nil {
+			c = wc
+		}
+	}
+	if c == nil && len(ex.P.CS.Instances[key]) > 0 {
+		for _, ik := range ex.P.CS.Instances[key] {
+			addDeclared(ex.P.CS.Funcs[ik])
+		}
+		return false
+	}
+	if c != nil && !c.Inline {
+		addDeclared(c)
+		return false
+	}
+	// executed inline: look into the body
+	if f.Blocks == nil || depth > 8 {
+		return true
+	}
+	for _, b := range f.Blocks {
+		for _, ins := range b.Instrs {
+			var inner *ssa.CallCommon
+			switch y := ins.(type) {
+			case *ssa.Call:
+				inner = y.Common()
+			case *ssa.Defer:
+				inner = y.Common()
+			case *ssa.Go:
+				return true
+			}
+			if inner != nil && ex.callGhostEffects(st, inner, set, depth+1) {
+				return true
+			}
+		}
 	}
 	return false
 }
